@@ -41,6 +41,7 @@ type HarnessCfg struct {
 	Tiers       []string          `json:"tiers"`
 	OneShot bool `json:"oneshot"`
 	NoFeas      bool              `json:"no_feasibility"`
+	FeasAlways  bool              `json:"feas_always"` // decide every symbolic branch with the solver (text-processing harnesses: control flow is determined by assumed digit ranges)
 	Replay      *ReplayCfg        `json:"replay"`
 	Note        string            `json:"note"`
 	PanicIgnore []string          `json:"panic_ignore"`
@@ -467,6 +468,7 @@ func (r *runner) runCase(job caseJob, solver *Solver) {
 	ex.solver = solver
 	ex.unwind = tierVal(h.Unwind, r.tier, 8)
 	ex.checkFeas = !h.NoFeas
+	ex.feasAlways = h.FeasAlways
 	for k, v := range h.Bounds {
 		ex.bounds[k] = tierVal(v, r.tier, 0)
 	}
